@@ -6,6 +6,7 @@ import NV.Common.Proto
 import NV.C16.Model
 import NV.C16.Tree
 import NV.C16.Spec
+import NV.C16.Hash
 
 namespace NV.C16
 
@@ -121,9 +122,31 @@ def saveName (file : List Byte) : List Byte :=
   | 47 :: r => r
   | b => b
 
-def doRestoreText (s : DState) (t : List Byte) : DState :=
+/-- the hash table of a restored mapping whose keys are all integers, as restore_mapping builds it: allocate_mapping
+    (pairs counted by the pre-pass), then one `Hash.insert` per pair in file order — printed like the harness' `tbl` line -/
+def tblLine (t : List Byte) (v : V) : Option String :=
+  match v, cstr t with
+  | .map ps, 40 :: 91 :: body =>
+    let keys := ps.toList.filterMap (fun kv => match kv.1 with | .int n => some n | _ => none)
+    if keys.length != ps.toList.length then none else
+    match preD utf8Len (body.length + 2) 1 true true false body 0 [] with
+    | some (_, n, _) =>
+      match Hash.insertAll Hash.intKeyHash (Hash.allocate (n / 2)) keys with
+      | some tb =>
+        let chains := (tb.buckets.zipIdx.filter (fun p => !p.1.isEmpty)).map
+          (fun p => s!" {p.2}:" ++ ",".intercalate (p.1.map (fun (k : Int) => toString k)))
+        some (s!"tbl size={tb.buckets.length} unfilled={tb.unfilled} count={keys.length}" ++ String.join chains)
+      | none => some "tbl out-of-memory"
+    | none => none
+  | _, _ => none
+
+def doRestoreText (s : DState) (t : List Byte) (dump : Bool := false) : DState :=
   match restoreVariable FloatIO utf8Len t with
-  | .value v => s.emit ("rest " ++ pv false v)
+  | .value v =>
+    let s := s.emit ("rest " ++ pv false v)
+    match (if dump then tblLine t v else none) with
+    | some l => s.emit l
+    | none => s
   | .error m => (s.emit ("err " ++ m)).emit "resterr"
   | .crash => s.emit "crash model"
   | .stuck => s.emit "stuck model"
@@ -159,6 +182,9 @@ def runTreeCmd (s : DState) (p : Prog) (line : String) : Option DState :=
   | ["so", z] =>
     let zeros := z != "0"
     if s.vals.any (fun v => saveVariable FloatIO v == .crash) then some (s.emit "crash model")
+    else if (saveObjectScript FloatIO p.name zeros (mkVars (slots p false) s.vals) none).isNone then
+      -- a non-static slot nested too deep: refused by the dry run, nothing touched
+      some (((s.emit s!"err Mappings and/or arrays nested too deep ({maxDepth}) for save_object").emit "so -1").emit "file unchanged")
     else
       match treeChunks s p zeros s.vals, treeChunks s p zeros (s.vals.map canonOrder) with
       | some ch, some chc =>
@@ -217,8 +243,8 @@ def runCmdFlat (s : DState) (line : String) : DState :=
     | "mk", [some a, some b] => doRoundtrip s (.cls (Vals.ofList [a, b]))
     | "big", [] => doRoundtrip s (.real (Float.ofBits 0x7ff0000000000000))
     | _, _ => s.emit "lpcerr"
-  | ["rv", h] => doRestoreText s (bytesOfHex h)
-  | ["rx", _, h] => doRestoreText s (bytesOfHex h)
+  | ["rv", h] => doRestoreText s (bytesOfHex h) true
+  | ["rx", _, h] => doRestoreText s (bytesOfHex h) true
   | ["rv"] => doRestoreText s []
   | ["set", i, a, b, st, c] =>
     match parseValue i, parseValue a, parseValue b, parseValue st, parseValue c with
@@ -244,13 +270,9 @@ def runCmdFlat (s : DState) (line : String) : DState :=
   | ["so", z] =>
     let zeros := z != "0"
     if saveObjectCrash FloatIO s.vars then s.emit "crash model"
-    else if s.vars.any (fun v => !v.isStatic && saveVariable FloatIO v.val == .tooDeep) then
-      -- too_deep_save_error() in the middle of save_object_recurse: the LPC error leaves the save file alone
-      let s := (s.emit s!"err Mappings and/or arrays nested too deep ({maxDepth}) for save_object").emit "so -1"
-      -- the error leaves through longjmp: the stream is never closed, the temporary stays (open finding K7)
-      match s.file with
-      | none => (s.emit "file none").emit "tmp-left-behind"
-      | some _ => (s.emit "file ?").emit "tmp-left-behind"
+    else if (saveObjectScript FloatIO s.progName zeros s.vars none).isNone then
+      -- too_deep_save_error() raised by the dry run, before the temporary is opened: no file is touched (K7 fixed)
+      ((s.emit s!"err Mappings and/or arrays nested too deep ({maxDepth}) for save_object").emit "so -1").emit "file unchanged"
     else
       let s := { s with file := some (saveFileText FloatIO s.progName zeros s.vars) }
       (s.emit "so 1").emit ("file " ++ hexOf (fileCanon s.progName s.vars zeros))
